@@ -72,3 +72,29 @@ Definition rr_decode (s : bytes) : option (Z * option (gmap Z Z)) :=
           end
       end
   end.
+
+(* ---- mercury/offchain_config.go: encoding/json of OffchainConfig{ExpirationWindow uint32 `expirationWindow`;
+   BaseUSDFee decimal.Decimal `baseUSDFee`} — the decimal is written as a quoted Decimal.String() ---- *)
+Definition s_m1 : bytes := str_bytes "{""expirationWindow"":".
+Definition s_m2 : bytes := str_bytes ",""baseUSDFee"":""".
+Definition merc_off_encode (window : Z) (fee : Decimal.dec) : bytes :=
+  s_m1 ++ nat_string window ++ s_m2 ++ dec_string fee ++ [34; 125].
+Definition is_num_char (c : Z) : bool := is_digit_dot c || (c =? 45).
+Definition merc_off_decode (s : bytes) : option (Z * Decimal.dec) :=
+  match is_prefix s_m1 s with
+  | None => None
+  | Some r1 =>
+      let '(ws, r2) := span is_digit r1 in
+      match ws with
+      | [] => None
+      | _ =>
+          match is_prefix s_m2 r2 with
+          | None => None
+          | Some r3 =>
+              let '(num, r4) := span is_num_char r3 in
+              if bool_decide (r4 = [34; 125]) then
+                match dec_parse num with Some (Ok d) => Some (digits_val ws, d) | _ => None end
+              else None
+          end
+      end
+  end.
